@@ -7,7 +7,7 @@ from ..impl_dwt import IMPL
 
 PROP = 'C13'
 MODULE = 'WaveletsVerif.Properties.C13'
-THEOREMS = ['WV.C13.afb1dAtrousOne_periodic_eq_swt', 'WV.C13.swt_shift']
+THEOREMS = ['WV.C13.afb1dAtrousOne_periodic_eq_swt', 'WV.C13.swt_shift', 'WV.C13.afb2dAtrous_eq_level', 'WV.C13.SWTForward_eq_swt2']
 OPS = ['afb1d_atrous', 'afb2d_atrous', 'SWTForward']
 
 
